@@ -104,7 +104,7 @@ def norm(v):
     if type(v) is tuple:
         return {"t": "tuple", "xs": [norm(x) for x in v]}
     if isinstance(v, (set, frozenset)):
-        return {"t": "set", "xs": sorted((norm(x) for x in v), key=_sortkey)}
+        return {"t": "set", "els": sorted((norm(x) for x in v), key=_sortkey)}
     if type(v) is dict:
         return {"t": "dict", "kv": sorted(([norm(k), norm(x)] for k, x in v.items()), key=_sortkey)}
     return {"t": "other", "s": "%s:%s" % (type(v).__name__, repr(v)[:80])}
@@ -116,7 +116,7 @@ def canon(j):
     if isinstance(j, dict):
         t = j.get("t")
         if t == "set":
-            return {"t": "set", "xs": sorted((canon(x) for x in j["xs"]), key=_sortkey)}
+            return {"t": "set", "els": sorted((canon(x) for x in j["els"]), key=_sortkey)}
         if t == "dict":
             return {"t": "dict", "kv": sorted(([canon(k), canon(x)] for k, x in j["kv"]), key=_sortkey)}
         return {k: canon(x) for k, x in j.items()}
@@ -389,3 +389,87 @@ def random_graph(rng, n, max_size=300, p_list=0.2, p_call=0.15):
                 g[k] = {"kind": "task", "f": "f%d" % i, "args": args}
         if term_size(g) <= max_size:
             return g
+
+
+# ---------------------------------------------------------------- TaskSpec.tla expressions (C08 / C11)
+def to_py(v):
+    """Tagged JSON value -> the Python object it stands for (inverse of norm on its image)."""
+    t = v["t"]
+    if t == "lit":
+        return v["v"]
+    if t == "str":
+        return v["s"]
+    if t == "tuple":
+        return tuple(to_py(x) for x in v["xs"])
+    if t == "list":
+        return [to_py(x) for x in v["xs"]]
+    if t == "set":
+        return {to_py(x) for x in v["els"]}
+    if t == "dict":
+        return {to_py(k): to_py(x) for k, x in v["kv"]}
+    if t == "app":
+        return Term(v["f"], [to_py(x) for x in v["a"]], [(k, to_py(x)) for k, x in v.get("kw", [])])
+    raise ValueError(v)
+
+
+def legacy_expr(x):
+    """Expression of TaskSpec.tla -> legacy graph value."""
+    from dask.core import literal
+    e = x["e"]
+    if e == "atom":
+        return to_py(x["a"])
+    if e == "quote":
+        return (literal(to_py(x["v"])),)
+    if e == "call":
+        if x.get("kw"):
+            raise ValueError("legacy calls have no keyword arguments")
+        return (Fn(x["f"]),) + tuple(legacy_expr(y) for y in x["xs"])
+    if e == "list":
+        return [legacy_expr(y) for y in x["xs"]]
+    if e == "tuple":
+        return tuple(legacy_expr(y) for y in x["xs"])
+    if e == "set":
+        return {legacy_expr(y) for y in x["xs"]}
+    if e == "dict":
+        return {k: legacy_expr(y) for k, y in zip(x["ks"], x["xs"])}
+    raise ValueError(x)
+
+
+def ts_expr(x, key=None, rng=None, top=False):
+    """Expression of TaskSpec.tla -> task object (Task / Alias / DataNode / containers / plain literal).
+    rng picks among equivalent spellings (TaskRef vs Alias, Dict constructor forms, DataNode-wrapped literals)."""
+    from dask._task_spec import Alias, DataNode, Dict, List, Set, Task, TaskRef, Tuple
+    pick = (lambda seq: rng.choice(seq)) if rng is not None else (lambda seq: seq[0])
+    e = x["e"]
+    if e == "ref":
+        k = to_py(x["k"])
+        if top:
+            return Alias(key, k)
+        return pick([TaskRef, Alias])(k)
+    if e == "quote":
+        raw = to_py(x["v"])
+        if top:
+            return DataNode(key, raw)
+        return pick([raw, raw, DataNode(None, raw)])
+    sub = [ts_expr(y, None, rng) for y in x["xs"]]
+    if e == "call":
+        kw = {name: ts_expr(y, None, rng) for name, y in x.get("kw", [])}
+        return Task(key, Fn(x["f"]), *sub, **kw)
+    if e in ("list", "tuple", "set"):
+        cls, klass = {"list": (List, list), "tuple": (Tuple, tuple), "set": (Set, set)}[e]
+        if len(sub) == 1 and isinstance(sub[0], klass):
+            # List(x) with a single raw list x means "the elements of x" in the constructor's
+            # convention: a one-element container holding x is spelled List([x])
+            return cls(klass([sub[0]])) if klass is not set else cls(*sub)
+        return cls(*sub)
+    if e == "dict":
+        how = pick(["flat", "dict", "pairs"]) if sub else "flat"
+        if how == "dict":
+            return Dict(dict(zip(x["ks"], sub)))
+        if how == "pairs":
+            return Dict([[k, v] for k, v in zip(x["ks"], sub)])
+        flat = []
+        for k, v in zip(x["ks"], sub):
+            flat += [k, v]
+        return Dict(*flat)
+    raise ValueError(x)
